@@ -4,6 +4,7 @@
 import Hv.Hdd
 import HvProofs.Hds
 import HvProofs.Overlay
+import HvProofs.Qcow2Stream
 namespace Hv.C07
 open Hv Hv.Layers
 
@@ -168,6 +169,60 @@ theorem qcow2_backing_short (q : Qcow2.QCow2) (r : Qcow2.Run) (bc : Nat → UInt
 theorem qcow2_no_backing_zeros (q : Qcow2.QCow2) (r : Qcow2.Run) (hb : q.backing = none) (ht : r.type = 0 ∨ r.type = 1) :
     q.runData r = .ok (zeros r.count) :=
   Qcow2.runData_unallocated_nobacking q r hb ht
+
+/-- **qcow2_guest_is_overlay**: the QCOW2 specification over backing content `b` is the layer "the image decides the
+    byte itself" (`decides`: L2 table present and the (sub-)cluster is not unallocated) over the backing content,
+    zero beyond the end of a shorter backing file -/
+theorem qcow2_guest_is_overlay (q : Qcow2.QCow2) (b : File) :
+    q.guest b = q.layer.over (padTo b.byte b.size) := Qcow2.guest_eq_over q b
+
+/-- a stream (buffer size `align`) over a conformant QCOW2 image is a backing handle with the image's guest-visible
+    disk as content: `seek(off); read(n)` returns `min n (size − off)` bytes of `guest` -/
+theorem qcow2_stream_is_backing (lo : Qcow2.QCow2) (align : Nat) (ha : 0 < align)
+    (hc : Qcow2.ConformantTo lo (Qcow2.roundUp lo.size align)) (bl : File) (hbl : Qcow2.BackingIs lo.backing bl) :
+    Qcow2.BackingIs (some (lo.asReader align)) (lo.asFile bl) :=
+  Qcow2.asReader_backingIs lo align ha hc bl hbl
+
+/-- **qcow2_backing_chain_reads_as_overlay**: an image `hi` whose backing handle is a stream over a lower QCOW2 image
+    `lo` (itself over backing content `bl`, itself conformant up to the end of its last stream buffer) reads as the
+    overlay: `hi`'s own bytes where it decides, else `lo`'s where `lo` decides (zero beyond `lo`'s size), else `bl`
+    (zero beyond its size). Any depth follows by iterating (`lo.asFile bl` is again a `File`). -/
+theorem qcow2_backing_chain_reads_as_overlay (hi lo : Qcow2.QCow2) (align : Nat) (ha : 0 < align)
+    (hbk : hi.backing = some (lo.asReader align))
+    (hchi : Qcow2.Conformant hi) (hclo : Qcow2.ConformantTo lo (Qcow2.roundUp lo.size align))
+    (bl : File) (hbl : Qcow2.BackingIs lo.backing bl) (off len : Nat) (h : off + len ≤ hi.size) :
+    hi.read off len =
+      .ok (slice (hi.layer.over (padTo (lo.layer.over (padTo bl.byte bl.size)) lo.size)) off len) := by
+  have := Qcow2.chain_read_correct hi lo align ha hbk hi.size ((Qcow2.conformantTo_self hi).mpr hchi) hclo bl hbl off len h
+  rw [this, Qcow2.guest_eq_over hi, ← Qcow2.guest_eq_over lo]
+  rfl
+
+/-- … and the stream over the upper image of such a chain refines the array of the overlay -/
+theorem qcow2_backing_chain_stream (hi lo : Qcow2.QCow2) (align : Nat) (ha : 0 < align)
+    (hbk : hi.backing = some (lo.asReader align))
+    (hchi : Qcow2.ConformantTo hi (Qcow2.roundUp hi.size align))
+    (hclo : Qcow2.ConformantTo lo (Qcow2.roundUp lo.size align))
+    (bl : File) (hbl : Qcow2.BackingIs lo.backing bl) (ops : List Op) :
+    AS.run hi.read (AS.init hi.size align) ops = Spec.run (hi.guest (lo.asFile bl)) ⟨hi.size, 0⟩ ops :=
+  Qcow2.stream_correct hi align ha hchi (lo.asFile bl)
+    (by rw [hbk]; exact Qcow2.asReader_backingIs lo align ha hclo bl hbl) ops
+
+/-- **snapshot_view_independent** (stated in C08): reads of `snapshot.open()` do not depend on the history of the
+    active stream -/
+theorem qcow2_snapshot_view_independent (q : Qcow2.QCow2) (s : Qcow2.Snap) (align : Nat) (ha : 0 < align)
+    (hc : Qcow2.ConformantTo (q.snapImage s) (Qcow2.roundUp q.size align)) (b : File) (hb : Qcow2.BackingIs q.backing b)
+    (earlier ops : List Op) :
+    AS.run (q.snapOpen s).read (AS.after q.read (AS.init q.size align) earlier).reopen ops
+      = Spec.run ((q.snapImage s).guest b) ⟨q.size, 0⟩ ops :=
+  Qcow2.snapshot_after_history q s align ha hc b hb earlier ops
+
+/-! non-vacuity: `exTop` (nothing allocated) over a 1024-byte-buffered stream on `exImg` -/
+example : Qcow2.Conformant Qcow2.exTop ∧ Qcow2.ConformantTo Qcow2.exImg (Qcow2.roundUp Qcow2.exImg.size 1024) ∧
+    Qcow2.exTop.backing = some (Qcow2.exImg.asReader 1024) :=
+  ⟨Qcow2.conformantb_sound _ (by decide), Qcow2.conformantToB_sound _ _ (by decide), rfl⟩
+
+set_option maxRecDepth 100000 in
+example : Qcow2.exTop.read 510 4 = .ok [UInt8.ofNat (2046 % 251), UInt8.ofNat (2047 % 251), 0, 0] := by decide
 
 theorem qcow2_unallocated_types_spec :
     Extracted.qcow2.UNALLOCATED_SUBCLUSTER_TYPES = [0, 1] ∧ Extracted.qcow2.ZERO_SUBCLUSTER_TYPES = [2, 3] := by decide
